@@ -26,6 +26,8 @@ func coqCase(ctx *hx.Ctx, c Case, o Obs) (term, key string, nontrivial bool) {
 		}
 	case "read":
 		term = coqRead(c, o)
+	case "chunk":
+		term = CoqChunkAs("CChunk", c, o)
 	}
 	if strings.Contains(o.Msg, "loops") {
 		ctx.Count("tree.hardlink-loop-rejected")
@@ -46,18 +48,21 @@ func corpus() []Case {
 	cs := footerCorpus()
 	cs = append(cs, footerSweep()...)
 	cs = append(cs, readCorpus()...)
+	cs = append(cs, ChunkCorpus("chunk")...)
 	cs = append(cs, treeCorpus()...)
 	return cs
 }
 
 func gen(r *hx.Rng, i int) Case {
-	switch r.Pick(3, 3, 3, 3) {
+	switch r.Pick(3, 3, 3, 2, 3) {
 	case 0:
 		return genFooter(r)
 	case 1:
 		return genOpen(r)
 	case 2:
 		return genRead(r)
+	case 3:
+		return GenChunk(r, "chunk")
 	}
 	return genTree(r)
 }
